@@ -142,6 +142,7 @@ type Summary struct {
 	WallS      float64           `json:"wall_s"`
 	Infra      string            `json:"infra,omitempty"`
 	Extra      map[string]int    `json:"extra,omitempty"`
+	Rule       string            `json:"rule"`
 }
 
 func mix(a, b, c uint64) uint64 {
@@ -194,7 +195,7 @@ func writeJSON(path string, v any) {
 
 func exploreMain(p *Property) {
 	start := time.Now()
-	sum := &Summary{Property: p.ID, Shard: *fShard, Verdicts: map[string]int{}, Faults: map[string]int{}, Probes: map[string]int{}, Foreign: map[string]int{}, KnownHits: map[string]int{}, Strategies: map[string]int{}, Extra: map[string]int{}}
+	sum := &Summary{Rule: p.Rule, Property: p.ID, Shard: *fShard, Verdicts: map[string]int{}, Faults: map[string]int{}, Probes: map[string]int{}, Foreign: map[string]int{}, KnownHits: map[string]int{}, Strategies: map[string]int{}, Extra: map[string]int{}}
 	fingers := map[uint64]bool{}
 	deadline := start.Add(time.Duration(*fSecs * float64(time.Second)))
 	var prog *os.File
